@@ -42,6 +42,8 @@ pub struct Audit {
     /// indices generated for a rejected last doubling
     pub rejected: Option<(i64, i64)>,
     pub near_tie: bool,
+    /// whether a selection random number is drawn at some merge is decided by the last bit of a weight
+    pub weight_tie: bool,
     /// directions of the doublings (true = forward), in order, including a rejected last one
     pub directions: Vec<bool>,
     /// merges in the order in which the implementation has to draw random numbers for them
@@ -80,6 +82,7 @@ struct Ctx<'a, 'b> {
     pos: usize,
     e0: f64,
     near_tie: bool,
+    weight_tie: bool,
     merges: Vec<Merge>,
     /// selection oracle: called with p < 1, returns whether the newer draw is taken
     select: Option<&'b mut (dyn FnMut(f64) -> bool + 'b)>,
@@ -147,6 +150,11 @@ impl<'a, 'b> Ctx<'a, 'b> {
         let log_size = logaddexp(older.log_size, newer.log_size);
         let self_ls = if is_main { older.log_size } else { log_size };
         let p = if newer.log_size >= self_ls { 1.0 } else { (newer.log_size - self_ls).exp() };
+        // whether a random number is drawn at all hinges on p < 1: when the older part's weight is lost in the
+        // rounding of the log-sum-exp (sub-trees), or the two weights tie (main tree), the last bit decides
+        if (is_main && (newer.log_size - self_ls).abs() < 1e-9) || (!is_main && p < 1.0 + 1e-300 && p > 1.0 - 1e-9) {
+            self.weight_tie = true;
+        }
         self.merges.push(Merge { p, is_main, older: (older.lo, older.hi), newer: (newer.lo, newer.hi) });
         let mut draw = older.draw;
         if self.track_selection {
@@ -192,12 +200,12 @@ pub fn audit<'b>(states: &[TapState], dim: usize, o: &AuditOpts, select: Option<
         return Err("trajectory does not begin with a start state".into());
     }
     let track = select.is_some();
-    let mut ctx = Ctx { st: states, pos: 1, e0: states[0].energy, near_tie: false, merges: vec![], select, track_selection: track };
+    let mut ctx = Ctx { st: states, pos: 1, e0: states[0].energy, near_tie: false, weight_tie: false, merges: vec![], select, track_selection: track };
     let mut main = Node { lo: 0, hi: 0, log_size: 0.0, depth: 0, draw: 0 };
     let mut directions = vec![];
     let mut rejected = None;
     if dim == 0 {
-        return Ok(Audit { depth: 0, reason: StopReason::Dim0, block: (0, 0), rejected: None, near_tie: false, directions, merges: vec![], selected: Some(0) });
+        return Ok(Audit { depth: 0, reason: StopReason::Dim0, block: (0, 0), rejected: None, near_tie: false, weight_tie: false, directions, merges: vec![], selected: Some(0) });
     }
     let mut reason = StopReason::MaxDepth;
     while main.depth < o.maxdepth {
@@ -266,7 +274,7 @@ pub fn audit<'b>(states: &[TapState], dim: usize, o: &AuditOpts, select: Option<
             main.hi
         ));
     }
-    Ok(Audit { depth: main.depth, reason, block: (main.lo, main.hi), rejected, near_tie: ctx.near_tie, directions, merges: ctx.merges, selected: if track { Some(main.draw) } else { None } })
+    Ok(Audit { depth: main.depth, reason, block: (main.lo, main.hi), rejected, near_tie: ctx.near_tie, weight_tie: ctx.weight_tie, directions, merges: ctx.merges, selected: if track { Some(main.draw) } else { None } })
 }
 
 /// Split the tap of one draw call into trajectories (each begins with a start state).
